@@ -308,7 +308,7 @@ pub fn case<G: CurveTag>(bytes: &[u8], col: &mut Collector, cfg: &GenCfg) -> Res
 
 fn dispatch(sub: &str, bytes: &[u8], col: &mut Collector) -> Result<(), Failure> {
     let curve = Curve::from_name(sub.split('/').nth(1).unwrap_or("")).unwrap_or(Curve::Secq);
-    let cfg = if sub.ends_with("/large") { GenCfg { max_ops1: 20, max_closures: 3, max_ops2: 10, max_commits: 4, big_gates: 70 } } else { GenCfg::small() };
+    let cfg = if sub.ends_with("/large") { GenCfg { max_ops1: 26, max_closures: 5, max_ops2: 10, max_commits: 12, big_gates: 70, max_terms: 10 } } else { GenCfg::small() };
     with_curve!(curve, G => case::<G>(bytes, col, &cfg))
 }
 
